@@ -396,21 +396,24 @@ class CachedFcn(UserFcn):
         f(4.56)   # computes the function again at a new point
     """
 
+    @staticmethod
+    def _sameArgument(x, y):
+        """True if the new argument is the remembered one, or compares equal to it."""
+        if x is y:
+            return True
+        try:
+            return bool(np.array_equal(x, y)) if np is not None else bool(x == y)
+        except Exception:
+            # e.g. a dict of arrays against a dict of scalars: not comparable, so not the same
+            return False
+
     def __call__(self, *args, **kwds):
         if (
             hasattr(self, "lastArgs")
             and len(args) == len(self.lastArgs)
-            and (
-                all(x is y for x, y in zip(args, self.lastArgs))
-                or (np is not None and all(np.array_equal(x, y) for x, y in zip(args, self.lastArgs)))
-                or (np is None and all(x == y for x, y in zip(args, self.lastArgs)))
-            )
+            and all(self._sameArgument(x, y) for x, y in zip(args, self.lastArgs))
             and set(kwds.keys()) == set(self.lastKwds.keys())
-            and (
-                all(kwds[k] is self.lastKwds[k] for k in kwds)
-                or (np is not None and all(np.array_equal(kwds[k], self.lastKwds[k]) for k in kwds))
-                or (np is None and all(kwds[k] == self.lastKwds[k] for k in kwds))
-            )
+            and all(self._sameArgument(kwds[k], self.lastKwds[k]) for k in kwds)
         ):
             return self.lastReturn
         out = super().__call__(*args, **kwds)
